@@ -103,6 +103,75 @@ def task_nodes(arg):
     out.sample({"date": date_iso, "households": names, "targets": subset[:4]}, limit=1)
     return out.dump()
 
+def on_demand_names(nodes, cols, kinds):
+    """(name, parent node) for every name that exists only when requested: other units of a timed node, automatic group sums of an
+    individual-level numeric node, and group sums in another unit."""
+    seen = {}
+    for t in nodes:
+        for d_ in derived_names(t, nodes, cols, kinds):
+            seen.setdefault(d_, t)
+        s = split(t)
+        if s and not s[2] and kinds.get(t) == "f":
+            for v in UNITS:
+                for g in ("hh", "sn"):
+                    d_ = f"{s[0]}{v}_{g}"
+                    if v != s[1] and d_ not in cols and d_ not in nodes:
+                        seen.setdefault(d_, t)
+    return sorted(seen.items())
+
+
+def _run_available(df, date_iso, tg, must):
+    """Run with the targets that exist; names other than `must` that have no function are dropped."""
+    tg = list(tg)
+    for _ in range(len(tg)):
+        try:
+            return run_api(df, date_iso, tg), tg
+        except ValueError as e:
+            msg = str(e)
+            if "no corresponding function" not in msg:
+                raise
+            drop = [x for x in tg if f'"{x}"' in msg and x not in must]
+            if not drop:
+                raise
+            tg = [x for x in tg if x not in drop]
+    raise ValueError("no targets left")
+
+
+def task_on_demand(arg):
+    """The value of an on-demand name must not depend on which of its own relatives are requested next to it."""
+    date_iso, names, pairs = arg
+    out = Partial()
+    df = popgen.frame(popgen.combined(names, int(date_iso[:4])))
+    cols = list(df.columns)
+    for d_, t in pairs:
+        sd = split(d_)
+        rel = [t]
+        if sd:
+            rel += [f"{sd[0]}{v}{sd[2]}" for v in UNITS if v != sd[1]]  # the same aggregate in the other units
+            if sd[2]:
+                rel.append(f"{sd[0]}{sd[1]}")  # the same unit without the group suffix
+        rel = [x for x in dict.fromkeys(rel) if x != d_ and x not in cols]
+        case = {"date": date_iso, "households": names, "on_demand_target": d_, "parent": t}
+        try:
+            alone = run_api(df, date_iso, [d_])[d_].to_numpy()
+        except Exception:  # noqa: BLE001
+            out.count("on_demand_names_not_available")
+            continue
+        out.state((date_iso[:4], d_, "on-demand"))
+        out.step()
+        try:
+            r, tg = _run_available(df, date_iso, [*rel, d_], {d_})
+        except Exception as e:  # noqa: BLE001
+            out.step()
+            out.violation("target-set-raises:on-demand", {**case, "targets": [*rel, d_]}, f"targets {[*rel, d_]} on {date_iso}: {e!r}"[:300])
+            continue
+        out.step()
+        if not same(r[d_].to_numpy(), alone):
+            i = int(np.argmin(sim.col_equal(r[d_].to_numpy(), alone))) if r[d_].to_numpy().shape == alone.shape else 0
+            out.violation(f"value-depends-on-target-set:on-demand:{'unit' if sd else 'sum'}", {**case, "targets": tg, "row": i},
+                          f"{d_} = {alone[i]!r} requested alone but {r[d_].to_numpy()[i]!r} ({r[d_].dtype}) with targets {tg} on {date_iso}")
+    return out.dump()
+
 
 def task_siblings(arg):
     """An unused extra column that is the time-unit sibling of a rule must not change the rule's value."""
@@ -332,6 +401,9 @@ def task_options(arg):
 
 
 def replay(case):
+    if "on_demand_target" in case:
+        p = task_on_demand((case["date"], case["households"], [(case["on_demand_target"], case["parent"])]))
+        return not p["violations"], "; ".join(x[2] for x in p["violations"][:3])
     if "target" in case:
         date_iso, names, t = case["date"], case["households"], case["target"]
         p = task_nodes((date_iso, names, [t]))
@@ -358,6 +430,20 @@ def run(tier):
     for part in harness.pmap(task_nodes, harness.rotate(tasks)):
         rep.merge(part)
     for part in harness.pmap(task_siblings, harness.rotate(tasks)):
+        rep.merge(part)
+    od = []
+    for d in (dates if thorough else dates[-1:]):
+        for pop in pops:
+            df = popgen.frame(popgen.combined(pop, int(d[:4])))
+            try:
+                nodes = sim.all_nodes(d, tuple(df.columns))
+                full = run_api(df, d, nodes)
+            except Exception:  # noqa: BLE001
+                continue
+            kinds = {c: full[c].to_numpy().dtype.kind for c in full.columns}
+            pairs = on_demand_names(nodes, list(df.columns), kinds)
+            od += [(d, pop, pairs[k : k + 25]) for k in range(0, len(pairs), 25)]
+    for part in harness.pmap(task_on_demand, harness.rotate(od)):
         rep.merge(part)
     otasks = [(d, pop) for d in dates for pop in ([POP, POP2] if thorough else [POP, POP2])]
     for part in harness.pmap(task_options, otasks):
